@@ -58,6 +58,7 @@ type Step struct {
 	From   int     `json:"from,omitempty"`
 	Tamper *Tamper `json:"tamper,omitempty"`
 	Items  []hexb  `json:"items,omitempty"`
+	H      int     `json:"h,omitempty"` // handle the step is addressed to (0 = the original trie; "copy" creates the next one from H)
 }
 
 type History struct {
@@ -344,6 +345,58 @@ type runner struct {
 	res     *vf.Result
 	lastRoot common.Hash
 	committed bool // the trie has not changed since the last Commit
+	// handles (a trie and its copies): tr/ref/ops above are those of the current one
+	trs  []anyTrie
+	refs []map[string][]byte
+	hops [][]string
+}
+
+// copyOf makes a second handle the way callers do: a struct copy of a Trie, Copy() of a SecureTrie.
+func copyOf(t anyTrie) anyTrie {
+	switch x := t.(type) {
+	case *trie.Trie:
+		c := *x
+		return &c
+	case *trie.SecureTrie:
+		return x.Copy()
+	}
+	return t
+}
+
+// checkHandles compares every handle with its own reference map: root, every
+// key, iteration.  It works on throw-away copies so that it leaves no cached
+// hashes behind in the handles themselves.
+func (r *runner) checkHandles(step int) {
+	for hi, t := range r.trs {
+		c := copyOf(t)
+		ref := r.refs[hi]
+		if got, want := c.Hash(), refRoot(ref, newMemo()); got != want {
+			r.fail("a handle's root is not the root of its own content (copies are not independent)", fmt.Sprintf("after step %d handle %d: root %x, content has root %x", step, hi, got, want))
+			return
+		}
+		if !r.secure {
+			for k, v := range ref {
+				got, err := c.TryGet([]byte(k))
+				if err != nil || !bytes.Equal(got, v) {
+					r.fail("a handle lost or changed a key it did not touch (copies are not independent)", fmt.Sprintf("after step %d handle %d key %x: got %x want %x err %v", step, hi, k, got, v, err))
+					return
+				}
+			}
+		}
+		it := trie.NewIterator(copyOf(t).NodeIterator(nil))
+		n := 0
+		for it.Next() {
+			if want, ok := ref[string(it.Key)]; !ok || !bytes.Equal(want, it.Value) {
+				r.fail("a handle iterates a pair it does not hold (copies are not independent)", fmt.Sprintf("after step %d handle %d key %x", step, hi, it.Key))
+				return
+			}
+			n++
+		}
+		if it.Err != nil || n != len(ref) {
+			r.fail("a handle lost or changed a key it did not touch (copies are not independent)", fmt.Sprintf("after step %d handle %d: iteration gives %d of %d pairs, err %v", step, hi, n, len(ref), it.Err))
+			return
+		}
+	}
 }
 
 func (r *runner) fail(what, detail string) {
@@ -811,15 +864,57 @@ func runHistory(h *History, res *vf.Result, seed uint64) (string, []hit) {
 			r.fail("cannot open an empty trie", err.Error())
 			return
 		}
+		r.trs, r.refs, r.hops = []anyTrie{r.tr}, []map[string][]byte{r.ref}, [][]string{nil}
 		for i := range h.Steps {
-			r.step(i, &h.Steps[i], rng)
+			s := &h.Steps[i]
+			hi := s.H
+			if hi < 0 || hi >= len(r.trs) {
+				hi = 0
+			}
+			if s.Kind == "copy" {
+				r.trs = append(r.trs, copyOf(r.trs[hi]))
+				nref := map[string][]byte{}
+				for k, v := range r.refs[hi] {
+					nref[k] = v
+				}
+				r.refs = append(r.refs, nref)
+				// the model replays the source's updates for the new handle (value semantics)
+				var log []string
+				for _, o := range r.hops[hi] {
+					if strings.HasPrefix(o, "OUpdate ") || strings.HasPrefix(o, "ODelete ") {
+						log = append(log, o)
+					}
+				}
+				r.hops = append(r.hops, log)
+				r.count("op:copy")
+			} else {
+				r.tr, r.ref, r.ops = r.trs[hi], r.refs[hi], r.hops[hi]
+				r.step(i, s, rng)
+				r.trs[hi], r.hops[hi] = r.tr, r.ops
+			}
+			if len(r.trs) > 1 {
+				r.checkHandles(i)
+				if len(r.hits) > 0 {
+					break
+				}
+			}
 		}
 	}()
 	var tab []string
 	for _, d := range r.m.order {
 		tab = append(tab, "("+bl([]byte(d))+","+bl(r.m.pairs[d])+")")
 	}
-	return fmt.Sprintf("mkCase %s [%s] [%s] []", vf.Bool(h.Secure), strings.Join(tab, ";"), strings.Join(r.ops, ";\n  ")), r.hits
+	all := r.ops
+	if len(r.hops) > 0 {
+		all = nil
+		for hi, log := range r.hops {
+			if hi > 0 {
+				all = append(all, "OReset")
+			}
+			all = append(all, log...)
+		}
+	}
+	return fmt.Sprintf("mkCase %s [%s] [%s] []", vf.Bool(h.Secure), strings.Join(tab, ";"), strings.Join(all, ";\n  ")), r.hits
 }
 
 // ---- generators -------------------------------------------------------------
@@ -908,7 +1003,93 @@ func genValue(rng *vf.Rng) []byte {
 	}
 }
 
+// genCopyHistory: a trie and its copies.  Keys share leading nibbles, the
+// copies are taken before anything was hashed, and the copy then inserts under
+// the same extension and deletes until branches below extensions collapse.
+func genCopyHistory(rng *vf.Rng) History {
+	h := History{Secure: rng.Chance(15)}
+	pre := rng.Bytes(1 + rng.Intn(2))
+	var pool [][]byte
+	n := 3 + rng.Intn(5)
+	for i := 0; i < n; i++ {
+		k := append([]byte{}, pre...)
+		switch rng.Intn(3) {
+		case 0:
+			k = append(k, byte(rng.Intn(4))<<4|byte(rng.Intn(4)))
+		case 1:
+			k = append(k, byte(rng.Intn(3))<<4, byte(rng.U64()))
+		default:
+			k[len(k)-1] = k[len(k)-1]&0xf0 | byte(rng.Intn(16))
+			k = append(k, byte(rng.U64()))
+		}
+		pool = append(pool, k)
+	}
+	val := func() []byte {
+		if rng.Chance(50) {
+			return rng.Bytes(1 + rng.Intn(8))
+		}
+		return rng.Bytes(32 + rng.Intn(8))
+	}
+	first := 2 + rng.Intn(len(pool)-1)
+	if first > len(pool) {
+		first = len(pool)
+	}
+	for i := 0; i < first; i++ {
+		h.Steps = append(h.Steps, Step{Kind: "update", K: pool[i], V: val()})
+	}
+	if rng.Chance(15) {
+		h.Steps = append(h.Steps, Step{Kind: "hash"}) // sometimes hashed before the copy
+	}
+	h.Steps = append(h.Steps, Step{Kind: "copy", H: 0})
+	handles := 2
+	// on the copy: a key under the same extension, then delete what the original inserted
+	for i := first; i < len(pool); i++ {
+		h.Steps = append(h.Steps, Step{Kind: "update", K: pool[i], V: val(), H: 1})
+	}
+	order := rng.Intn(2)
+	for j := 0; j < first; j++ {
+		i := j
+		if order == 1 {
+			i = first - 1 - j
+		}
+		if rng.Chance(85) {
+			h.Steps = append(h.Steps, Step{Kind: "delete", K: pool[i], H: 1})
+		}
+	}
+	m := rng.Heavy(30)
+	for i := 0; i < m; i++ {
+		hd := rng.Intn(handles)
+		k := pool[rng.Intn(len(pool))]
+		switch x := rng.Intn(100); {
+		case x < 35:
+			h.Steps = append(h.Steps, Step{Kind: "update", K: k, V: val(), H: hd})
+		case x < 70:
+			h.Steps = append(h.Steps, Step{Kind: "delete", K: k, H: hd})
+		case x < 80:
+			h.Steps = append(h.Steps, Step{Kind: "get", K: k, H: hd})
+		case x < 86:
+			h.Steps = append(h.Steps, Step{Kind: "hash", H: hd})
+		case x < 90:
+			h.Steps = append(h.Steps, Step{Kind: "iter", H: hd})
+		case x < 94:
+			h.Steps = append(h.Steps, Step{Kind: "prove", K: k, H: hd})
+		default:
+			if handles < 4 {
+				h.Steps = append(h.Steps, Step{Kind: "copy", H: hd})
+				handles++
+			}
+		}
+	}
+	for hd := 0; hd < handles; hd++ {
+		h.Steps = append(h.Steps, Step{Kind: "hash", H: hd}, Step{Kind: "iter", H: hd})
+	}
+	return h
+}
+
 func genHistory(rng *vf.Rng) History {
+	if rng.Chance(18) {
+		return genCopyHistory(rng)
+	}
 	h := History{Secure: rng.Chance(15)}
 	if rng.Chance(50) {
 		h.CacheLimit = rng.Intn(3)
